@@ -430,7 +430,7 @@ theorem specHi_int (z : ZBounds) (v : Int) :
 /-- passing the emitted bound checks of integral bounds, in integer terms -/
 theorem passes_int (z : ZBounds) (v : Int) :
     (z.toIB.check).passes (v : Rat) = true ↔ specZ z v := by
-  rw [C05.int_bounds_exact _ v (integralBounds_toIB z none) rfl (toXB_ne_other _) (toXB_ne_other _)]
+  rw [C05.int_bounds_exact _ v rfl rfl (toXB_ne_other _) (toXB_ne_other _)]
   rw [C05.boundsOK_iff]
   simp only [IntBounds.check, ZBounds.toIB]
   rw [specLo_int, specHi_int]
